@@ -19,7 +19,7 @@ func Run(ctx *vrun.Ctx, prop string) error {
 		models = []ModelCfg{
 			{Name: "deliver3", N: 3, Works: "{1,2}", Flaws: allFlaws, Graph: true},
 			{Name: "manual3", N: 3, Works: "{1,2}", Flaws: `{"connect"}`, Manual: 2, Graph: true, MaxPaths: 2500},
-			{Name: "restart3", N: 3, Works: "{1}", Flaws: `{"connect"}`, Manual: 2, Restart: 1, Graph: true, MaxPaths: 2000},
+			{Name: "restart3", N: 3, Works: "{1}", Flaws: `{"connect"}`, Manual: 2, Restart: 1, Dups: true, Graph: true, MaxPaths: 2500},
 			{Name: "deliver4", N: 4, Works: "{1}", Flaws: `{"connect"}`, Graph: true, MaxPaths: 1500},
 			{Name: "hdrmanual3", N: 3, Works: "{1}", Flaws: `{}`, Headers: true, Manual: 1, Graph: true, MaxPaths: 2000},
 			{Name: "manual3x3", N: 3, Works: "{1}", Flaws: `{}`, Manual: 3, Graph: true, MaxPaths: 2000},
